@@ -136,7 +136,11 @@ def _run_once(unit, strict, rlimit, tag, text_override, threads, extra_args, pid
     if threads: cmd += ["--num-threads", str(threads)]
     if extra_args: cmd += extra_args
     res.cmd = " ".join(cmd)
-    p = subprocess.run(cmd, cwd=d, capture_output=True, text=True)
+    try:
+        p = subprocess.run(cmd, cwd=d, capture_output=True, text=True, timeout=float(os.environ.get("VERIF_VERUS_TIMEOUT", "900")))
+    except subprocess.TimeoutExpired as ex:
+        res.status = "undecided"; res.undecided.append({"msg": "verus timed out after %ss" % ex.timeout, "owner": "?", "obligation": unit + "::<timeout>", "raw": "", "site": "", "line": 0})
+        subprocess.run(["pkill", "-f", "rust_verify %s.rs" % unit]); res.wall = time.time() - t0; return res
     res.stderr = p.stderr
     open(os.path.join(d, "stderr.txt"), "w").write(p.stderr)
     open(os.path.join(d, "stdout.json"), "w").write(p.stdout)
